@@ -14,6 +14,7 @@ pub fn def() -> PropDef {
         nontrivial,
         functional: true,
         rule: "all, exists, exists_one/existsOne, map (2 and 3 arguments) and filter over every int list of length 0-4 (quick) / 0-6 (thorough) from the alphabet {-1,0,1,2}, over single- and multi-entry maps (keys), with bodies that are pure predicates, raise an error on chosen elements, or call a logging host function; nested two deep; expected outcome and ordered call log come from an independent reference implementation of the defining folds (first deciding element stops all/exists, errors on reached elements abort); plus the expansion itself (model's Macros.expand vs the parser's) for every macro shape; non-trivial = range non-empty; distinct = distinct source text",
+        post: super::no_post,
         exhaustive_note: "lists of length 0-4 over a 4-symbol alphabet x macro x body family are enumerated completely in the quick tier",
     }
 }
